@@ -11,55 +11,108 @@ def flatten(n, out):
     out.append(n)
 
 
+def _literal_array(d):
+    """strings of  T name[] = {"...", "..."}  (every element a string literal), else None"""
+    init = d.get('init')
+    if init is None:
+        return None
+    x = strip(init)
+    if x is None or x['k'] != 'InitListExpr':
+        return None
+    out = []
+    for e in x.get('c', []):
+        e = strip(e)
+        if e is None or e['k'] != 'StringLiteral':
+            return None
+        out.append(e)
+    return out or None
+
+
 def template(fb, func, allow=(), bind=None, depth=0):
     """returns (text with <<?i>> placeholders, [non-literal operand nodes], [other statement nodes]).
     A call to a repository function that is itself a straight-line writer on the same stream (an extracted helper) is
-    expanded in place; its parameters that are bound to string literals at the call site count as literals."""
+    expanded in place; its parameters that are bound to string literals at the call site count as literals.  A range-for
+    over a local array of string literals whose body is stream insertions is unrolled."""
     res, nonlit, ctrl = [], [], []
-    bind = bind or {}
+    arrays = {}
+
+    def stmts(lst, bind):
+        nonlocal nonlit, ctrl
+        for st in lst:
+            s = strip(st)
+            if s is None:
+                continue
+            if s['k'] == 'CXXOperatorCallExpr' and s.get('op') == '<<':
+                ops = []
+                flatten(s, ops)
+                for o in ops[1:]:
+                    if o['k'] == 'DeclRefExpr' and o.get('ref', {}).get('lid') in bind:
+                        b = strip(bind[o['ref']['lid']])
+                        # const char* parameters bound to a literal
+                        while b is not None and b['k'] in ('CXXConstructExpr',) and b.get('c'):
+                            b = strip(b['c'][0])
+                        if b is not None and b['k'] == 'StringLiteral':
+                            res.append(b.get('str', ''))
+                            continue
+                    if o['k'] == 'StringLiteral':
+                        res.append(o.get('str', ''))
+                    elif o['k'] == 'DeclRefExpr' and o['ref']['name'] == 'endl':
+                        res.append('\n')
+                    elif o['k'] == 'ImplicitCastExpr' and o.get('c') and o['c'][0]['k'] == 'DeclRefExpr' and o['c'][0]['ref']['name'] == 'endl':
+                        res.append('\n')
+                    else:
+                        res.append('<<?%d>>' % len(nonlit))
+                        nonlit.append(o)
+            elif s['k'] in ('CallExpr', 'CXXMemberCallExpr') and depth < 3 and s.get('callee') and not s['callee'].get('ext') and s['callee']['m'] in fb.funcs and _is_writer(fb.funcs[s['callee']['m']]):
+                cf = fb.funcs[s['callee']['m']]
+                args = s['c'][1:]
+                b2 = {}
+                for p, a in zip(cf.d.get('params', []), args):
+                    b2[p['lid']] = a
+                t2, nl2, ct2 = template(fb, cf, allow, b2, depth + 1)
+                # renumber the callee's placeholders
+                for i in range(len(nl2) - 1, -1, -1):
+                    t2 = t2.replace('<<?%d>>' % i, '<<?%d>>' % (i + len(nonlit)))
+                res.append(t2)
+                nonlit += nl2
+                ctrl += ct2
+            elif s['k'] in ('DeclStmt', 'NullStmt') and not any('ostream' in (d.get('t') or '') for d in s.get('decls', [])):
+                # locals are harmless as long as they are not inserted (an inserted local is a non-literal operand and reported as such)
+                for d in s.get('decls', []):
+                    la = _literal_array(d)
+                    if la:
+                        arrays[d['lid']] = la
+                continue
+            elif s['k'] == 'CXXForRangeStmt' and _unrollable(s, arrays):
+                arr, var, body = _unrollable(s, arrays)
+                for lit in arr:
+                    b3 = dict(bind)
+                    b3[var] = lit
+                    stmts(body.get('c', []) if body['k'] == 'CompoundStmt' else [body], b3)
+            else:
+                ctrl.append(s)
     body = func.d['body']
-    for st in body.get('c', []):
-        s = strip(st)
-        if s['k'] == 'CXXOperatorCallExpr' and s.get('op') == '<<':
-            ops = []
-            flatten(s, ops)
-            for o in ops[1:]:
-                if o['k'] == 'DeclRefExpr' and o.get('ref', {}).get('lid') in bind and func.d.get('params') is not None:
-                    b = strip(bind[o['ref']['lid']])
-                    # const char* parameters bound to a literal
-                    while b is not None and b['k'] in ('CXXConstructExpr',) and b.get('c'):
-                        b = strip(b['c'][0])
-                    if b is not None and b['k'] == 'StringLiteral':
-                        res.append(b.get('str', ''))
-                        continue
-                if o['k'] == 'StringLiteral':
-                    res.append(o.get('str', ''))
-                elif o['k'] == 'DeclRefExpr' and o['ref']['name'] == 'endl':
-                    res.append('\n')
-                elif o['k'] == 'ImplicitCastExpr' and o.get('c') and o['c'][0]['k'] == 'DeclRefExpr' and o['c'][0]['ref']['name'] == 'endl':
-                    res.append('\n')
-                else:
-                    res.append('<<?%d>>' % len(nonlit))
-                    nonlit.append(o)
-        elif s['k'] in ('CallExpr', 'CXXMemberCallExpr') and depth < 3 and s.get('callee') and not s['callee'].get('ext') and s['callee']['m'] in fb.funcs and _is_writer(fb.funcs[s['callee']['m']]):
-            cf = fb.funcs[s['callee']['m']]
-            args = s['c'][1:]
-            b2 = {}
-            for p, a in zip(cf.d.get('params', []), args):
-                b2[p['lid']] = a
-            t2, nl2, ct2 = template(fb, cf, allow, b2, depth + 1)
-            # renumber the callee's placeholders
-            for i in range(len(nl2) - 1, -1, -1):
-                t2 = t2.replace('<<?%d>>' % i, '<<?%d>>' % (i + len(nonlit)))
-            res.append(t2)
-            nonlit += nl2
-            ctrl += ct2
-        elif s['k'] in ('DeclStmt', 'NullStmt') and not any('ostream' in (d.get('t') or '') for d in s.get('decls', [])):
-            # locals are harmless as long as they are not inserted (an inserted local is a non-literal operand and reported as such)
-            continue
-        else:
-            ctrl.append(s)
+    stmts(body.get('c', []), dict(bind or {}))
     return ''.join(res), nonlit, ctrl
+
+
+def _unrollable(s, arrays):
+    """(literals, loop variable lid, body) of  for (T v : literalArray) { stream << ...; }  else None"""
+    kids = s.get('c', [])
+    decls = [c for c in kids if c is not None and c['k'] == 'DeclStmt']
+    if len(decls) < 2 or kids[-1] is None:
+        return None
+    rng = decls[0]['decls'][0]
+    refs = [x.get('ref', {}).get('lid') for x in sub(rng.get('init') or {}) if x['k'] == 'DeclRefExpr']
+    if len(refs) != 1 or refs[0] not in arrays:
+        return None
+    body = kids[-1]
+    inner = body.get('c', []) if body['k'] == 'CompoundStmt' else [body]
+    for st in inner:
+        x = strip(st)
+        if not (x['k'] == 'CXXOperatorCallExpr' and x.get('op') == '<<'):
+            return None
+    return arrays[refs[0]], decls[-1]['decls'][0]['lid'], body
 
 
 def _is_writer(cf):
